@@ -35,6 +35,11 @@ pub struct ChannelTrace {
     /// not necessarily for JSON)
     #[serde(default)]
     pub pad: Option<(String, String)>,
+    /// the document is a link signed by this key for this step: it is also delivered as a link file
+    /// into a link directory and read by final-product verification (one more way for JSON to reach
+    /// the parser)
+    #[serde(default)]
+    pub linkdir: Option<(crate::keys::KeySpec, String)>,
 }
 
 // ---------------------------------------------------------------------------------------------
@@ -200,6 +205,17 @@ fn decode_all<T: DeserializeOwned + PartialEq + Send + 'static>(t: &ChannelTrace
                     io.1 += rd.stats.eintr;
                     push("serde_json::from_reader", sp, r, false, &mut results, &mut values);
                 }
+                if let Some(fa) = t2.fail_at {
+                    // a stream that dies half-way; whatever the entry point keeps from it must not leak
+                    // into the next call on this thread
+                    let mut rd = SimReader::new(text.as_bytes(), t2.io_seed ^ 7, t2.chunked, t2.eintr_pct, Some(fa % (text.len() + 1)));
+                    let r = Json::from_reader::<_, T>(&mut rd).map_err(|e| e.to_string());
+                    io.2 += rd.stats.eio;
+                    push("Json::from_reader+EIO", sp, r, true, &mut results, &mut values);
+                    let mut rd = SimReader::new(text.as_bytes(), t2.io_seed ^ 8, t2.chunked, t2.eintr_pct, Some(fa % (text.len() + 1)));
+                    let r = JsonPretty::from_reader::<_, T>(&mut rd).map_err(|e| e.to_string());
+                    push("JsonPretty::from_reader+EIO", sp, r, true, &mut results, &mut values);
+                }
                 {
                     let mut rd = SimReader::new(text.as_bytes(), t2.io_seed ^ 1, t2.chunked, t2.eintr_pct, None);
                     let r = Json::from_reader::<_, T>(&mut rd).map_err(|e| e.to_string());
@@ -295,7 +311,74 @@ pub fn run_channel(t: &ChannelTrace, scratch: &Scratch) -> ChannelOutcome {
         _ => ChannelOutcome { results: vec![], unequal: None, panic: None, respelled: false, io: (0, 0, 0), file_io: (0, 0, 0) },
     };
     o.respelled = respelled;
+    if let (Some((ks, step)), true) = (&t.linkdir, o.panic.is_none()) {
+        let owner = crate::keys::KeySpec { kind: crate::keys::KeyKind::Ed, seed: 424_242 };
+        let keyspecs = vec![owner, *ks];
+        let layout = LayoutSpec {
+            expires: "9999-01-01T00:00:00Z".into(),
+            readme: String::new(),
+            key_table: vec![1],
+            steps: vec![StepSpec { name: step.clone(), threshold: 1, pubkeys: vec![1], exp_mat: vec![], exp_prod: vec![], cmd: vec![] }],
+            inspect: vec![],
+        };
+        if let Some(ldoc) = sign_value(&layout_value(&layout, &keyspecs), &[0], &keyspecs) {
+            let ltext = serde_json::to_string(&ldoc).unwrap_or_default();
+            let fname = format!("{}.{}.link", step, crate::keys::key(*ks).prefix());
+            for (sp, text) in &texts_for_linkdir(t) {
+                scratch.reset_dirs();
+                if std::fs::write(scratch.links().join(&fname), text.as_bytes()).is_err() {
+                    continue;
+                }
+                if let Some((short, eintr)) = t.file_faults {
+                    use std::os::unix::fs::MetadataExt;
+                    let dev = std::fs::metadata(scratch.links()).map(|m| m.dev()).unwrap_or(0);
+                    crate::seams::read_arm(dev, t.io_seed, short, eintr, 0);
+                }
+                let links = scratch.links();
+                let work = scratch.work();
+                let call = crate::exec::VerifyCall {
+                    layout_bytes: ltext.as_bytes(),
+                    caller_keys: vec![(crate::keys::key(owner).id.clone(), crate::keys::key(owner).public.clone())],
+                    link_dir: &links,
+                    cwd: &work,
+                    clock: &[(1_790_000_000, 0)],
+                    hash_seed: t.io_seed,
+                    step_name: None,
+                };
+                let r = crate::exec::verify(&call);
+                if t.file_faults.is_some() {
+                    crate::seams::read_disarm();
+                }
+                std::env::set_current_dir("/").ok();
+                match r {
+                    crate::exec::CallResult::Verdict(v) => {
+                        if let Some(p) = v.panic {
+                            o.panic = Some(p);
+                        } else {
+                            o.results.push(ChanResult { channel: "in_toto_verify: link file in the link directory".into(), spelling: sp, ok: v.ok, err: v.msg.chars().take(120).collect(), may_fail: false });
+                        }
+                    }
+                    crate::exec::CallResult::NoLayout(_) => {}
+                }
+            }
+        }
+    }
     o
+}
+
+/// The same spellings `run_channel` decodes, for the link-directory channel.
+fn texts_for_linkdir(t: &ChannelTrace) -> Vec<(&'static str, String)> {
+    let mut texts: Vec<(&'static str, String)> = vec![("as-written", t.text.clone())];
+    if let Some(rs) = respell(&t.text, t.ws, t.escape_seed, t.order_seed) {
+        if rs != t.text {
+            texts.push(("re-spelled", rs));
+        }
+    }
+    if let Some((a, b)) = &t.pad {
+        let base = texts.last().map(|x| x.1.clone()).unwrap_or_default();
+        texts.push(("padded", format!("{a}{base}{b}")));
+    }
+    texts
 }
 
 pub fn judge_channel(t: &ChannelTrace, o: &ChannelOutcome) -> Vec<Finding> {
@@ -485,6 +568,11 @@ fn slsa02(r: &mut Rng) -> Value {
 }
 
 pub fn gen_document(r: &mut Rng, seed: u64) -> (String, Value) {
+    let (k, v, _) = gen_document_ext(r, seed);
+    (k, v)
+}
+
+pub fn gen_document_ext(r: &mut Rng, seed: u64) -> (String, Value, Option<(crate::keys::KeySpec, String)>) {
     let kind = r.weighted(&[20, 12, 10, 8, 14, 8, 6, 6, 4, 6, 6]);
     let opts = GenOpts { ed_only_pct: 80, delegation_pct: 0, max_steps: 3, ..GenOpts::default() };
     let (t, _) = gen::baseline(seed ^ 0xabcdef, &opts);
@@ -509,11 +597,14 @@ pub fn gen_document(r: &mut Rng, seed: u64) -> (String, Value) {
     let lv = layout_value(&layout, &t.keys);
     let link = t.root.files.iter().find_map(|f| if let Body::Link(l) = &f.body { Some(l.clone()) } else { None }).unwrap_or_default();
     let linkv = link_value(&link);
-    match kind {
+    let (k, v): (String, Value) = match kind {
         0 => {
-            let signed = if r.chance(2, 3) { lv } else { linkv };
+            let is_link = !r.chance(2, 3);
+            let signed = if is_link { linkv } else { lv };
             let doc = sign_value(&signed, &[0], &t.keys).unwrap_or(json!({"signatures": [], "signed": signed}));
-            ("metablock".into(), doc)
+            let step_ok = link.name.chars().all(|c| c.is_ascii_alphanumeric() || c == '_' || c == '-') && !link.name.is_empty();
+            let ld = if is_link && step_ok && doc["signatures"].as_array().map(|a| a.len() == 1).unwrap_or(false) { Some((t.keys[0], link.name.clone())) } else { None };
+            return ("metablock".into(), doc, ld);
         }
         1 => ("layout".into(), lv),
         2 => ("link".into(), linkv),
@@ -551,12 +642,13 @@ pub fn gen_document(r: &mut Rng, seed: u64) -> (String, Value) {
             };
             ("predicate".into(), pred)
         }
-    }
+    };
+    (k, v, None)
 }
 
 pub fn run_c17(tier: Tier, seed: u64, index: u64, scratch: &Scratch, rec: &mut RunRecord) {
     let mut r = Rng::stream(seed, "channel");
-    let (kind, mut doc) = gen_document(&mut r, seed);
+    let (kind, mut doc, mut linkdir) = gen_document_ext(&mut r, seed);
     let mut labels = vec![];
     // some documents are damaged so that the reject side is exercised as well
     if r.chance(1, 5) {
@@ -573,6 +665,7 @@ pub fn run_c17(tier: Tier, seed: u64, index: u64, scratch: &Scratch, rec: &mut R
             if let Some(slot) = doc.pointer_mut(&ptr) {
                 *slot = nv;
                 labels.push("DAMAGED-LEAF".into());
+                linkdir = None;
             }
         }
     }
@@ -591,7 +684,12 @@ pub fn run_c17(tier: Tier, seed: u64, index: u64, scratch: &Scratch, rec: &mut R
             fail_at: if r.chance(1, 3) { Some(r.next() as usize % 100_000) } else { None },
             file_faults: if tier == Tier::Thorough && r.chance(1, 2) { Some((300, 100)) } else { None },
             labels: labels.clone(),
-            pad: if r.chance(1, 4) {
+            linkdir: linkdir.clone(),
+            pad: if linkdir.is_some() && r.chance(1, 3) {
+                // enough leading blanks to push the document's text across an 8 KiB or 16 KiB boundary
+                let n = *r.pick(&[8192usize, 16384]) - r.idx(text.len().max(1).min(600)) - 1;
+                Some((" ".repeat(n), "\n".to_string()))
+            } else if r.chance(1, 4) {
                 let ws = [" ", "\n", "\t", "\r\n", "\u{c}", "\u{b}", "\u{a0}", "\u{85}", "\u{2028}", "\u{3000}", "\u{feff}", "\u{0}"];
                 Some((r.pick(&ws).to_string(), r.pick(&ws).to_string()))
             } else {
